@@ -16,8 +16,8 @@ import (
 
 	"github.com/aml-org/amf-custom-validator/internal/validator"
 	"github.com/aml-org/amf-custom-validator/pkg"
-	"github.com/aml-org/amf-custom-validator/pkg/events"
 	"github.com/aml-org/amf-custom-validator/pkg/config"
+	"github.com/aml-org/amf-custom-validator/pkg/events"
 	"github.com/aml-org/amf-custom-validator/verifh/core"
 )
 
@@ -63,20 +63,30 @@ func C06Conc(profilePath, dataPath string, rounds int) {
 		}
 		return o
 	}
-	// cold start: the first thing this process does with these inputs is to validate them from 8 goroutines that enter Rego
-	// generation together (steered through the event channel); only then the report alone
-	cold := alignedCalls(events.RegoGenerationStart, 8, func(w int, ch *chan events.Event) (string, error) {
-		return pkg.ValidateWithConfiguration(string(p), string(d), false, ch, clockA, rc)
-	})
-	ref := one()
+	// cold start: the first thing this process does with these inputs is to validate them from 8 goroutines: each is started
+	// when the one before has parsed the profile and stands before Rego generation, then all 8 enter Rego generation together
+	// (steered through the event channel); only then the report alone
 	coldDiffs := []string{}
-	for w, o := range cold {
-		if o != ref {
-			coldDiffs = append(coldDiffs, fmt.Sprintf("cold start, goroutine %d: %s", w, firstDiff(ref, o)))
+	var ref string
+	for k, gap := range []time.Duration{0, 20 * time.Microsecond, 100 * time.Microsecond, 400 * time.Microsecond, 2 * time.Millisecond} {
+		text := string(p)
+		if k > 0 {
+			text += fmt.Sprintf("\n# cold start %d\n", k) // a text new to the process, the same profile
 		}
-		for v := 0; v < w; v++ {
-			if cold[v] != o && len(coldDiffs) < 4 {
-				coldDiffs = append(coldDiffs, fmt.Sprintf("cold start, goroutines %d and %d differ: %s", v, w, firstDiff(cold[v], o)))
+		cold := startedThenStaggered(events.ProfileParsingDone, 10*time.Second, 8, gap, func(w int, ch *chan events.Event) (string, error) {
+			return pkg.ValidateWithConfiguration(text, string(d), false, ch, clockA, rc)
+		})
+		if k == 0 {
+			ref = one()
+		}
+		for w, o := range cold {
+			if o != ref && len(coldDiffs) < 4 {
+				coldDiffs = append(coldDiffs, fmt.Sprintf("cold start %d (8 calls parsed one after the other, released %v apart), goroutine %d: %s", k, gap, w, firstDiff(ref, o)))
+			}
+			for v := 0; v < w; v++ {
+				if cold[v] != o && len(coldDiffs) < 4 {
+					coldDiffs = append(coldDiffs, fmt.Sprintf("cold start %d (released %v apart), goroutines %d and %d differ: %s", k, gap, v, w, firstDiff(cold[v], o)))
+				}
 			}
 		}
 	}
@@ -266,7 +276,7 @@ validations:
 
 func C06(e *core.Env) {
 	res := e.Res
-	res.Rule = "cases = (profile, data): generated Rego and report (fixed clock) computed by N fresh processes (quick 10, thorough 40), by repeated calls in one process, and by 8 goroutines at once (a child process whose FIRST use of the inputs is 8 goroutines entering Rego generation together, then repeated concurrent calls); all bytes must be identical; profiles: several quantified constraints and properties per propertyConstraints map, several prefixes incl. a redeclared built-in one, deep nesting, alternations nested in alternations followed by further steps, 48 validations, repository fixtures; a profile relying on a built-in prefix before / after a profile that rebinds it, against the fresh-process report; a history of 13 validations cycling through 5 report configurations (sharing / differing in each field) against the fresh-process report of each configuration; four constant clocks (incl. the zero time.Time and a zoned instant), each used twice 1.1 s apart; data: failing documents with lexical source maps, with TWO source-information nodes, with several results per level; " +
+	res.Rule = "cases = (profile, data): generated Rego and report (fixed clock) computed by N fresh processes (quick 10, thorough 40), by repeated calls in one process, and by 8 goroutines at once (a child process whose FIRST use of the inputs is 8 goroutines that parse the profile one after the other and then enter Rego generation together or 20 us .. 2 ms apart (five cold starts: the text, and the text with a fresh comment), then repeated concurrent calls); all bytes must be identical; profiles: several quantified constraints and properties per propertyConstraints map, several prefixes incl. a redeclared built-in one, deep nesting, alternations nested in alternations followed by further steps, 48 validations, repository fixtures; a profile relying on a built-in prefix before / after a profile that rebinds it, against the fresh-process report; a history of 13 validations cycling through 5 report configurations (sharing / differing in each field) against the fresh-process report of each configuration; four constant clocks (incl. the zero time.Time and a zoned instant), each used twice 1.1 s apart; data: failing documents with lexical source maps, with TWO source-information nodes, with several results per level; " +
 		"non-trivial = the report has results; distinct by (profile, data, mode)"
 	self, _ := os.Executable()
 	g := RandomEdgeGraph(e.Rand, 5, []string{"a", "b", "c"}, 0.4)
